@@ -6,6 +6,7 @@ package main
 
 import (
 	"bytes"
+	"flag"
 	"fmt"
 	"strconv"
 	"strings"
@@ -15,6 +16,8 @@ import (
 )
 
 var run *hx.Run
+
+var onlyAlias = flag.Bool("only-alias", false, "generate only the result-ownership histories (race-detector pass)")
 
 func itoa(i int) string { return strconv.Itoa(i) }
 
